@@ -341,7 +341,7 @@ def rng_for(seed: int, tag: str) -> random.Random:
 
 
 def write_replay(prop: str, seed: int, body: Dict[str, Any]) -> str:
-    REPLAYS.mkdir(exist_ok=True)
+    REPLAYS.mkdir(parents=True, exist_ok=True)
     n = 0
     while True:
         p = REPLAYS / f"{prop}-{seed}-{n}.json"
